@@ -29,6 +29,10 @@ VERIF = coq.VERIF
 WORK = coq.WORK
 REPLAYS = os.path.join(VERIF, "replays")
 EVIDENCE = os.path.join(VERIF, "evidence")
+if os.environ.get("SFV_REPO", "/repo") != "/repo":
+    # experiment against a scratch worktree (seeded changes): never overwrite the real evidence / replays
+    REPLAYS = os.path.join(WORK, "seeded_replays")
+    EVIDENCE = os.path.join(WORK, "seeded_evidence")
 KNOWN = os.path.join(VERIF, "known_findings.json")
 
 
